@@ -896,7 +896,8 @@ impl G {
 
   fn p_iflet(&mut self, ty: &Ty, cx: &Ctx, d: u32, want: R) -> Option<E> {
     let (scrut, sty) = self.pick_scrutinee(cx, d)?;
-    let pats = self.cover(&sty, 1 + self.rng.below(2) as u32, cx, scrut.r);
+    let pd = 1 + self.rng.below(2) as u32;
+    let pats = self.cover(&sty, pd, cx, scrut.r);
     if pats.len() < 2 {
       return None;
     }
@@ -1494,7 +1495,7 @@ impl G {
     let x = format!("s{depth}");
     match ty {
       Ty::Int => format!("Str.fromInt({e})"),
-      Ty::Bool => format!("ShowStd.bool({e})"),
+      Ty::Bool => format!("ShowStd.showBool({e})"),
       Ty::Str => e.to_string(),
       Ty::Unit => "\"unit\"".into(),
       Ty::T(_) => "\"?\"".into(),
@@ -1512,22 +1513,22 @@ impl G {
       }
       Ty::V(t) => {
         let inner = self.show_expr(t, &x, depth + 1);
-        format!("ShowStd.vec({e}, ({x}) -> {inner}, 0, \"[\")")
+        format!("ShowStd.showVec({e}, ({x}) -> {inner}, 0, \"[\")")
       }
       Ty::C(n, a) => {
         if n == "List" {
           let inner = self.show_expr(&a[0], &x, depth + 1);
-          return format!("ShowStd.list({e}, ({x}) -> {inner})");
+          return format!("ShowStd.showList({e}, ({x}) -> {inner})");
         }
         if n == "Option" {
           let inner = self.show_expr(&a[0], &x, depth + 1);
-          return format!("ShowStd.opt({e}, ({x}) -> {inner})");
+          return format!("ShowStd.showOpt({e}, ({x}) -> {inner})");
         }
         if n == "Pair" {
           let y = format!("r{depth}");
           let i0 = self.show_expr(&a[0], &x, depth + 1);
           let i1 = self.show_expr(&a[1], &y, depth + 1);
-          return format!("ShowStd.pair({e}, ({x}) -> {i0}, ({y}) -> {i1})");
+          return format!("ShowStd.showPair({e}, ({x}) -> {i0}, ({y}) -> {i1})");
         }
         if a.is_empty() {
           format!("{e}.show()")
